@@ -60,6 +60,7 @@ func genConfigs(r *lib.Run, n int) []config {
 		every = n / nProxy
 	}
 	var out []config
+	proxySeen := 0
 	for i := 0; i < n; i++ {
 		c := config{
 			ID:        fmt.Sprintf("s%d-h%d", r.Seed, i),
@@ -71,6 +72,13 @@ func genConfigs(r *lib.Run, n int) []config {
 		}
 		c.Max = maxSizes[maxSizeDraw[rng.IntN(len(maxSizeDraw))]]
 		c.Proxy = every > 0 && i%every == every-1
+		// a third of the histories, and every other proxy history, run behind the
+		// endpoint-metrics decorator (every oracle must hold identically)
+		c.Metrics = i%3 == 1
+		if c.Proxy {
+			c.Metrics = proxySeen%2 == 0
+			proxySeen++
+		}
 		if c.Proxy && c.Max > lib.MiB {
 			c.Max = maxSizes[rng.IntN(5)]
 		}
@@ -91,7 +99,7 @@ func genConfigs(r *lib.Run, n int) []config {
 }
 
 func run(r *lib.Run) {
-	r.SetRule("distinct tuple = (write path, limit kind, storage, proxy, phase, expected admit/refuse, where accounted+backlog+item lands relative to the limit, backlog file-count class, gate closed); " +
+	r.SetRule("distinct tuple = (write path, limit kind, storage, proxy, endpoint-metrics decorator, phase, expected admit/refuse, where accounted+backlog+item lands relative to the limit, backlog file-count class, gate closed); " +
 		"non-trivial = the request reached the server and the cache was re-measured (Stats, index snapshot, directory listing) afterwards")
 	r.Assume("accounted size = Stats().totalSize (4 KiB blocks of indexed entries + reservations, C03); backlog = raw bytes of files in the cache directory that are not in the index; item = declared logical size")
 	r.Assume("a retry after the backlog drained is judged by the same admission formula with backlog 0 (a request that does not fit accounted+item <= limit stays refused; counted as retry.still-over-limit)")
@@ -147,6 +155,13 @@ func run(r *lib.Run) {
 	if hits["evict.beforeUnlink"] == 0 || hits["evict.afterUnlink"] == 0 {
 		r.Inconclusive("the remover gate was never reached")
 	}
+	for _, p := range proxyPaths {
+		for _, m := range []bool{false, true} {
+			if k := fmt.Sprintf("metrics-decorator.%v.%s.refuse", m, p); r.Counter(k) == 0 {
+				r.Inconclusive("required observation never made: " + k)
+			}
+		}
+	}
 	for _, need := range []string{"gate.parked-with-backlog", "expect.refuse", "expect.admit", "retry.judged", "reads.during-overload", "replay.uploads"} {
 		if r.Counter(need) == 0 {
 			r.Inconclusive("required observation never made: " + need)
@@ -196,7 +211,7 @@ func newWorld(r *lib.Run, ro *router, org *origin, pool *dirPool, cfg config, li
 		sd ^= 0x9e3779b97f4a7c15
 	}
 	w.rng = rand.New(rand.NewPCG(sd, 17))
-	opts := lib.ServerOpts{Dir: pool.get(), MaxSize: cfg.Max, Storage: cfg.Storage, ZstdImpl: cfg.ZstdImpl, HardLimit: limit, RawHTTP: true, AssetAPI: true}
+	opts := lib.ServerOpts{Dir: pool.get(), MaxSize: cfg.Max, Storage: cfg.Storage, ZstdImpl: cfg.ZstdImpl, HardLimit: limit, RawHTTP: true, AssetAPI: true, EndpointMetrics: cfg.Metrics}
 	if cfg.Proxy {
 		w.px = lib.NewFakeProxy(cfg.Storage == "zstd")
 		opts.Proxy = w.px
@@ -207,7 +222,7 @@ func newWorld(r *lib.Run, ro *router, org *origin, pool *dirPool, cfg config, li
 		return nil, fmt.Errorf("%w: server start: %v", errInconclusive, err)
 	}
 	w.srv = srv
-	w.logf("server: max_size=%d hard_limit=%d storage=%s/%s proxy=%v", cfg.Max, limit, cfg.Storage, cfg.ZstdImpl, cfg.Proxy)
+	w.logf("server: max_size=%d hard_limit=%d storage=%s/%s proxy=%v endpoint_metrics=%v", cfg.Max, limit, cfg.Storage, cfg.ZstdImpl, cfg.Proxy, cfg.Metrics)
 	return w, nil
 }
 
@@ -427,7 +442,7 @@ func (w *world) upload(path string, it *item, phase string) error {
 	if w.replay {
 		w.r.Count("replay.uploads")
 		w.r.Count("replay." + path + "." + okStr(out.OK))
-		w.r.Distinct(path, "no-option", w.cfg.Storage, w.cfg.Proxy, phase, backlogClass(before.BacklogCount), closed)
+		w.r.Distinct(path, "no-option", w.cfg.Storage, w.cfg.Proxy, w.cfg.Metrics, phase, backlogClass(before.BacklogCount), closed)
 		if !out.OK {
 			k := "failed"
 			if out.Refused {
@@ -453,7 +468,8 @@ func (w *world) upload(path string, it *item, phase string) error {
 	w.r.Count(fmt.Sprintf("probe.%s.%s.%s", path, expect, cls))
 	w.r.Count("backlogfiles." + backlogClass(before.BacklogCount) + "." + expect)
 	w.r.Count("limitkind." + w.cfg.LimitKind + "." + expect)
-	w.r.Distinct(path, w.cfg.LimitKind, w.cfg.Storage, w.cfg.Proxy, phase, expect, cls, backlogClass(before.BacklogCount), closed)
+	w.r.Distinct(path, w.cfg.LimitKind, w.cfg.Storage, w.cfg.Proxy, w.cfg.Metrics, phase, expect, cls, backlogClass(before.BacklogCount), closed)
+	w.r.Count(fmt.Sprintf("metrics-decorator.%v.%s.%s", w.cfg.Metrics, path, expect))
 
 	if it.Inline != nil && admit {
 		// second stage: the inlined blob is stored in the CAS after the AC entry
@@ -667,7 +683,10 @@ func (w *world) stepReads(its []*item, overload bool) error {
 		} else {
 			w.r.Count("reads.other")
 		}
-		w.r.Distinct("read", it.Kind.String(), w.cfg.Storage, w.cfg.Proxy, overload, w.mode())
+		w.r.Distinct("read", it.Kind.String(), w.cfg.Storage, w.cfg.Proxy, w.cfg.Metrics, overload, w.mode())
+		if overload {
+			w.r.Count(fmt.Sprintf("reads.during-overload.metrics-decorator.%v", w.cfg.Metrics))
+		}
 		if len(bad) > 0 {
 			for _, b := range bad {
 				p := b[:strings.Index(b, ":")]
